@@ -369,6 +369,7 @@ void explore(Backend<R>& be, Ctx& ctx)
 	ctx.trace(res.transitions);
 	ctx.outcome(mc::fnv(be.name) ^ res.states);
 	if (res.states != be.src.size() + 1) ctx.count("note/states-differ-from-len+1");
+	if (peek::usedFallback()) ctx.count("binding/fallback-keys");
 	if (ctx.caseIndex % 7 == 0) ctx.sample(be.name + " len=" + std::to_string(be.src.size()) + " states=" + std::to_string(res.states) + " transitions=" + std::to_string(res.transitions) + " e.g. history: Seek(1) ReadPartial(18446744073709551615) Read(0)");
 }
 
